@@ -19,7 +19,14 @@ func (f *frame) instr(in ssa.Instruction) {
 		f.setVal(x, addr)
 		addr = f.vals[x]
 		vc.assume(mkAnd(ule(i64(4096), addr), ult(addr, f.curAlloc())))
-		f.zeroMem(addr, T, nil)
+		var pd *ptrDesc
+		if isLocalAlloc(x) {
+			// a struct whose address never escapes: kept out of the heaps
+			vc.names["loc"]++
+			pd = &ptrDesc{kind: pdLocal, local: fmt.Sprintf("L$%s%s#%d", f.prefix, x.Name(), vc.names["loc"])}
+			f.ptrs[x] = pd
+		}
+		f.zeroMem(addr, T, pd)
 	case *ssa.FieldAddr:
 		base := f.val(x.X)
 		f.nonNil(x.Pos(), base)
@@ -27,6 +34,10 @@ func (f *frame) instr(in ssa.Instruction) {
 		si := tt.structOf(st)
 		fi := si.fields[x.Field]
 		f.setVal(x, bvAdd(base, i64(fi.offset)))
+		if bpd := f.ptrDescOf(x.X); bpd != nil && bpd.kind == pdLocal {
+			f.ptrs[x] = childDesc(bpd, base, si, x.Field)
+			break
+		}
 		switch fi.typ.Underlying().(type) {
 		case *types.Struct, *types.Array:
 		default:
@@ -560,7 +571,18 @@ func (f *frame) makeSlice(x *ssa.MakeSlice) {
 	}
 	ptr := f.alloc(units)
 	vc.assume(ule(i64(4096), ptr))
-	f.zeroRange(ptr, i64(0), cp, el)
+	if !isStructType(el) {
+		if _, isArr := el.Underlying().(*types.Array); isArr {
+			unsup("slice of arrays")
+		}
+		// a fresh object: its whole inner array is zero
+		hn, hs := tt.elemHeap(el)
+		es := tt.sortOf(el)
+		zeroArr := Term{fmt.Sprintf("((as const %s) %s)", arraySort(SBV64, es), tt.zero(el).S), arraySort(SBV64, es)}
+		f.st.set(hn, vc.define(hn, mkStore(f.st.get(hn, hs), ptr, zeroArr)))
+	} else {
+		f.zeroRange(ptr, i64(0), cp, el)
+	}
 	f.setVal(x, mkSlice(ptr, i64(0), ln, cp))
 }
 
@@ -665,4 +687,60 @@ func (f *frame) retype(v Term, from, to types.Type) Term {
 	}
 	unsup("conversion %s -> %s", from, to)
 	return Term{}
+}
+
+// isLocalAlloc: a struct (without arrays) whose address is only used for field access, whole loads and stores.
+func isLocalAlloc(a *ssa.Alloc) bool {
+	T := deref(a.Type())
+	if !plainStruct(T) {
+		return false
+	}
+	return addrUsesLocal(a)
+}
+
+func plainStruct(t types.Type) bool {
+	st, ok := t.Underlying().(*types.Struct)
+	if !ok {
+		return false
+	}
+	for i := 0; i < st.NumFields(); i++ {
+		switch u := st.Field(i).Type().Underlying().(type) {
+		case *types.Array:
+			return false
+		case *types.Struct:
+			if !plainStruct(st.Field(i).Type()) {
+				return false
+			}
+		default:
+			_ = u
+		}
+	}
+	return true
+}
+
+func addrUsesLocal(v ssa.Value) bool {
+	refs := v.Referrers()
+	if refs == nil {
+		return false
+	}
+	for _, r := range *refs {
+		switch x := r.(type) {
+		case *ssa.DebugRef:
+		case *ssa.FieldAddr:
+			if x.X != v || !addrUsesLocal(x) {
+				return false
+			}
+		case *ssa.UnOp:
+			if x.Op != token.MUL {
+				return false
+			}
+		case *ssa.Store:
+			if x.Addr != v || x.Val == v {
+				return false
+			}
+		default:
+			return false
+		}
+	}
+	return true
 }
